@@ -126,9 +126,10 @@ Theorem multilevel_sort_refuted : expand_sorts_results = false -> expand_sorts_p
     ~ sorted_strs (match expand_model true false false names p with Some l => l | None => [] end).
 Proof.
   intros H1 H2. vm_compute in H1, H2.
-  exists [lit "a/x"; lit "a-/x"], (lit "*/x"). split.
-  - vm_compute. discriminate.
-  - vm_compute. intros H. inversion H as [|? ? _ Hhd]; subst. inversion Hhd as [|? ? Hle]; subst. discriminate Hle.
+  first [ discriminate H1 | discriminate H2 |
+    exists [lit "a/x"; lit "a-/x"], (lit "*/x"); split;
+    [ vm_compute; discriminate
+    | vm_compute; intros H; inversion H as [|? ? _ Hhd]; subst; inversion Hhd as [|? ? Hle]; subst; discriminate Hle ] ].
 Qed.
 
 Lemma sort_flag : expand_sorts_per_dir || expand_sorts_results = true.
